@@ -38,7 +38,7 @@ pub const C30: Check = Check {
                    "equivalent URIs may map to different files (the RRDP archive name hashes the URI as written)"],
     shards: |_| 8,
     watchdog: |t| Duration::from_secs(t.pick(600, 3600)),
-    budget: |t| Duration::from_secs(t.pick(45, 600)),
+    budget: |t| Duration::from_secs(t.pick(45, 300)),
     run: run_c30,
     crash_is_violation: true,
     finish: None,
